@@ -35,6 +35,13 @@ def make_case(cid, rng, schema, root, n_ops, disk):
         full.append(op)
         marks.append(mark)
 
+    if rng.random() < 0.5:
+        # remove the most recently created track (the one with the highest id), sometimes creating another afterwards
+        from .. import gen_snap as GS2
+        add({"op": "create_track", "as": "tlast", "snap": {"relative_path": GS2.hx("last/one%d.mp3" % rng.randrange(10 ** 6))}}, None)
+        add({"op": "remove_track", "t": "tlast"}, None)
+        if rng.random() < 0.5:
+            add({"op": "create_track", "as": "tlast2", "snap": {"relative_path": GS2.hx("last/two%d.mp3" % rng.randrange(10 ** 6))}}, None)
     if v2:
         # states that only the public table API reaches: individual nullable columns cleared or set on their own
         # (e.g. bpmAnalyzed present while bpm is NULL), on up to three tracks
@@ -67,8 +74,8 @@ def make_case(cid, rng, schema, root, n_ops, disk):
     add({"op": "rawdump", "digest": True, "checks": False}, "d0")
     if disk:
         add({"op": "file_digest", "dir": d}, "f0")
-    add({"op": "observe_all", "verify": True}, "o1")
-    add({"op": "observe_all", "verify": True}, "o2")
+    add({"op": "observe_all", "verify": True, "probe_span": 8}, "o1")
+    add({"op": "observe_all", "verify": True, "probe_span": 8}, "o2")
     add({"op": "verify"}, "verify")
     if v2:
         add({"op": "table_observe"}, "t1")
